@@ -82,11 +82,21 @@ def ensure_gomod():
     src = open(os.path.join(REPO, "go.mod")).read()
     src = re.sub(r"^module .*$", "module verifharness", src, count=1, flags=re.M)
     src += "\nrequire github.com/33cn/chain33 v0.0.0\n\nreplace github.com/33cn/chain33 => %s\n" % REPO
-    dst = os.path.join(HARNESS, "go.mod")
-    old = open(dst).read() if os.path.exists(dst) else None
-    if old != src:
-        open(dst, "w").write(src)
-    shutil.copyfile(os.path.join(REPO, "go.sum"), os.path.join(HARNESS, "go.sum"))
+    _write_if_changed(os.path.join(HARNESS, "go.mod"), src.encode())
+    # go.sum: rewritten only when it differs, and atomically — parallel `go build`s of other harnesses read it
+    _write_if_changed(os.path.join(HARNESS, "go.sum"), open(os.path.join(REPO, "go.sum"), "rb").read())
+
+
+def _write_if_changed(dst, data):
+    try:
+        if open(dst, "rb").read() == data:
+            return
+    except OSError:
+        pass
+    tmp = "%s.tmp.%d" % (dst, os.getpid())
+    with open(tmp, "wb") as f:
+        f.write(data)
+    os.replace(tmp, dst)
 
 
 def go_build(cmd, race=False, tags="verif"):
